@@ -152,12 +152,16 @@ void body(int t)
     int n = gsim::prog_len(t);
     for (int i = 0; i < n; i++) {
         gsim::Op op = gsim::prog_op(t, i);
-        switch (op.code) {
-            case OP_MODIFY: do_modify(0); break;
-            case OP_MODIFY_THROW: do_modify(1 + (op.a & 1)); break;
-            case OP_READ: do_read(op); break;
-            default: break;
-        }
+        auto exec = [&] {
+            switch (op.code) {
+                case OP_MODIFY: do_modify(0); break;
+                case OP_MODIFY_THROW: do_modify(1 + (op.a & 1)); break;
+                case OP_READ: do_read(op); break;
+                default: break;
+            }
+        };
+        if (op.c & 2) wl::run_in_unwind(exec);
+        else exec();
     }
 }
 
@@ -193,7 +197,7 @@ void run_std(bool with_throw)
                 if (with_throw && gsim::gen_int(3) == 0)
                     gsim::prog_add(t, {OP_MODIFY_THROW, gsim::gen_int(2), 0, 0});
                 else
-                    gsim::prog_add(t, {OP_MODIFY, 0, 0, 0});
+                    gsim::prog_add(t, {OP_MODIFY, 0, 0, gsim::gen_int(12) == 0 ? 2 : 0});
             }
             if (gsim::gen_int(4) == 0)
                 gsim::prog_add(t, {OP_READ, gsim::gen_int(16), gsim::gen_int(3), 0});
@@ -202,7 +206,7 @@ void run_std(bool with_throw)
             int k = 1 + gsim::gen_int(4);
             for (int i = 0; i < k; i++)
                 gsim::prog_add(t, {OP_READ, gsim::gen_int(16), gsim::gen_int(4),
-                                   gsim::gen_int(4) == 0 ? 1 : 0});
+                                   (gsim::gen_int(4) == 0 ? 1 : 0) | (gsim::gen_int(12) == 0 ? 2 : 0)});
         }
     }
     gsim::enable_fault(gsim::F_STALE_READ, gsim::knob("stale", 0, 2) * 150);
